@@ -694,6 +694,8 @@ class Run:
             self.do_apply(fr, stmt, depth)
         elif kind == 'ROUNDTRIP':
             self.do_roundtrip(fr, stmt)
+        elif kind == 'DROP':
+            self.do_drop(fr, stmt)
         elif kind == 'TRY':
             await self.do_try(fr, stmt, depth)
         elif kind == 'RAISE':
@@ -859,16 +861,30 @@ class Run:
     # -- CREATE -----------------------------------------------------------------------------
     def visible(self, fr: Frame) -> list[Handle]:
         if self.share:
-            return self.handles
+            return [h for h in self.handles if h.op is not None]
         own = set(fr.actor.own_handles)
-        return [h for h in self.handles if h.h in own]
+        return [h for h in self.handles if h.h in own and h.op is not None]
+
+    def do_drop(self, fr: Frame, stmt: list) -> None:
+        vis = self.visible(fr)
+        if not vis:
+            self.log(fr, 'skip', {'stmt': 'DROP'})
+            return
+        handle = self.pick(fr, vis, stmt[1])
+        if handle.op is None:
+            self.log(fr, 'skip', {'stmt': 'DROP'})
+            return
+        self.log(fr, 'drop', {'h': handle.h})
+        handle.op = None
+        handle.jitfn = None
+        self.probe('handle_dropped')
 
     def pick(self, fr: Frame, vis: list, k: int) -> 'Handle':
         """k >= 0: the k-th visible handle (mod count); k < 0: the |k|-th most recent handle this actor
         created or derived itself (so that a program can refer to "the inverse I have just made")."""
         if k < 0:
             own = fr.actor.own_handles
-            if len(own) >= -k:
+            if len(own) >= -k and self.handles[own[k]].op is not None:
                 return self.handles[own[k]]
             k = -k
         return vis[k % len(vis)]
@@ -879,7 +895,7 @@ class Run:
         shape = stmt[1]
         inner: list[Handle] = []
         if shape == 'nested':
-            cands = [h for h in self.visible(fr) if h.shape.startswith('single') and len(h.caps) == 1]
+            cands = [h for h in self.visible(fr) if h.shape.startswith('single') and len(h.caps) == 1 and h.op is not None]
             if cands:
                 inner = [cands[-1]]
             else:
